@@ -22,11 +22,13 @@ echo "== demo without change (must pass)" >> $log; go test -vet=off -count=1 ./$
 git apply MUTANT/patch.diff
 confirmed=false; [ $b -eq 0 ] && [ $dfail -ne 0 ] && [ $suite -eq 0 ] && [ $dpass -eq 0 ] && confirmed=true
 echo "confirmed=$confirmed (build=$b demo_with=$dfail suite=$suite demo_without=$dpass)"
-# run the checks against /repo with the change applied
+# run the checks against /repo with the change applied (SKIP_CHECKS=1: confirmation only; the checks
+# are then run by tools/seeded_regress.sh)
+results=""
+if [ "${SKIP_CHECKS:-0}" != 1 ]; then
 cd /repo
 if ! git apply --check $out/patch.diff 2>/dev/null; then echo "patch does not apply to /repo"; exit 2; fi
 git apply $out/patch.diff
-results=""
 for p in $props; do
   o=$(/verif/bin/gosym check $p quick 2>&1); rc=$?
   echo "$o" | grep -a "^VIOLATION\|harness=\|NO-VERDICT\|HARNESS-BROKEN" | head -6 > $out/check-$p.txt
@@ -36,6 +38,7 @@ for p in $props; do
 done
 git checkout -- .
 cd /verif && git checkout -- evidence 2>/dev/null
+fi
 cat > $out/meta.json <<EOM
 {
  "id": "$id",
